@@ -54,6 +54,13 @@ Shape0(role, name) ==
       [] name = "nwM"  -> [api |-> "nw", writes |-> <<WBuf + WBuf \div 2>>,  frames |-> <<F, F>>]
       [] name = "nwSL" -> [api |-> "nw", writes |-> <<10, 3 * WBuf>>,        frames |-> <<T, F>>]
       [] name = "nwLL" -> [api |-> "nw", writes |-> <<3 * WBuf, 3 * WBuf>>,  frames |-> <<T, T, F>>]
+      \* a prepared message: one frame, one transport write whatever its size
+      [] name = "pmS"  -> [api |-> "pm", writes |-> <<WBuf \div 2>>,         frames |-> <<F>>]
+      [] name = "pmL"  -> [api |-> "pm", writes |-> <<3 * WBuf>>,            frames |-> <<F>>]
+      \* a Close frame through the message API: WriteMessage / NextWriter+Write+Close / prepared
+      [] name = "wmC"  -> [api |-> "wmc", writes |-> <<10>>,                 frames |-> <<F>>]
+      [] name = "nwC"  -> [api |-> "nwc", writes |-> <<10>>,                 frames |-> <<F>>]
+      [] name = "pmC"  -> [api |-> "pmc", writes |-> <<10>>,                 frames |-> <<F>>]
       \* with pauses
       [] name = "nwBp"  -> [api |-> "nw", writes |-> <<10, 3 * WBuf>>,       frames |-> <<T, F>>,
                             pause |-> <<1>>, hold |-> <<1, 0>>]              \* bytes buffered, not flushed
@@ -70,6 +77,10 @@ Shape0(role, name) ==
       [] name = "wmL"  -> [api |-> "wm", writes |-> <<WBuf + WBuf \div 2>>,  frames |-> <<F, F>>]
       [] name = "nwL"  -> [api |-> "nw", writes |-> <<2 * WBuf + 10>>,       frames |-> <<F, F, F>>]
       [] name = "nwM"  -> [api |-> "nw", writes |-> <<WBuf + WBuf \div 2>>,  frames |-> <<F, F>>]
+      [] name = "pmS"  -> [api |-> "pm", writes |-> <<WBuf \div 2>>,         frames |-> <<F>>]
+      [] name = "wmC"  -> [api |-> "wmc", writes |-> <<10>>,                 frames |-> <<F>>]
+      [] name = "nwC"  -> [api |-> "nwc", writes |-> <<10>>,                 frames |-> <<F>>]
+      [] name = "pmC"  -> [api |-> "pmc", writes |-> <<10>>,                 frames |-> <<F>>]
       \* with pauses (a client copies everything through the buffer: a frame goes out when it is full)
       [] name = "nwMp"  -> [api |-> "nw", writes |-> <<10, WBuf + WBuf \div 2>>, frames |-> <<F, F>>,
                             pause |-> <<1, 2>>, hold |-> <<1, 1>>]
@@ -110,6 +121,13 @@ C_pingS2_ping       == << <<"ping~", "ping~">>, <<"ping">> >>
 C_pingS_pong        == << <<"ping~">>, <<"pong">> >>
 C_mixS              == << <<"ping~", "ping">>, <<"close">>, <<"pong", "pong~">> >>
 
+\* D sends the Close itself (each entry point of the message API) and goes on calling every entry point;
+\* a Close of another goroutine and D going on with prepared messages
+S_dc_wm        == <<"nwL", "wmC", "wmS", "pmS", "nwM", "pmS">>
+S_dc_nw        == <<"pmL", "nwC", "pmS", "pmS", "wmS", "nwM">>
+S_dc_pm        == <<"wmS", "pmC", "nwM", "nwM", "wmS", "pmS">>
+S_kc_pm        == <<"pmS", "pmS", "pmS", "wmS", "nwM", "pmS">>
+S_wmC_wmS      == <<"wmC", "wmS", "pmS">>
 S_nwSLp_wmL    == <<"nwSLp", "wmL">>
 S_nwSLp        == <<"nwSLp">>
 S_nwBp_wmS     == <<"nwBp", "wmS">>
@@ -143,7 +161,12 @@ R_pongD2_closeD == <<"pong@", "pong@", "close@">>
 R_pongD_pong_closeD == <<"pong@", "pong", "close@">>
 
 Plan == [i \in 1..Len(Shapes) |-> Shape(Role, Shapes[i])]
+\* the messages that are a Close frame sent through the message API, in program order
+RECURSIVE DCloseFrom(_)
+DCloseFrom(i) == IF i > Len(Shapes) THEN <<>>
+                 ELSE (IF Shapes[i] \in {"wmC", "nwC", "pmC"} THEN <<i>> ELSE <<>>) \o DCloseFrom(i + 1)
 GenProgram == [msgs |-> [i \in 1..Len(Shapes) |-> Plan[i].frames], hold |-> [i \in 1..Len(Shapes) |-> Plan[i].hold],
+               dclose |-> DCloseFrom(1),
                ctl |-> Ctl, rd |-> Rd, cx |-> <<>>, fault |-> Fault, closer |-> Closer]
 
 GenInit == Init /\ hist = <<>> /\ q = <<>>
